@@ -229,6 +229,7 @@ where
                         };
                         let mut runner = TestRunner::new(cfg);
                         let stats = RefCell::new(Stats::default());
+                        let first: RefCell<Option<String>> = RefCell::new(None);
                         let strat = strategy();
                         let res = runner.run(&strat, |case| {
                             let mut st = stats.borrow_mut();
@@ -237,6 +238,9 @@ where
                             match r {
                                 Ok(()) => Ok(()),
                                 Err(m) => {
+                                    if !st.frozen {
+                                        *first.borrow_mut() = Some(m.clone());
+                                    }
                                     st.frozen = true;
                                     Err(TestCaseError::fail(m))
                                 }
@@ -244,7 +248,15 @@ where
                         });
                         let fail = match res {
                             Ok(()) => None,
-                            Err(TestError::Fail(reason, case)) => Some((case, reason.message().to_string())),
+                            Err(TestError::Fail(reason, case)) => {
+                                let mut m = reason.message().to_string();
+                                if let Some(f) = first.borrow().as_ref() {
+                                    if *f != m {
+                                        m = format!("{}  [first failure before shrinking: {}]", m, f);
+                                    }
+                                }
+                                Some((case, m))
+                            }
                             Err(TestError::Abort(reason)) => {
                                 eprintln!("harness: proptest aborted in section {}: {}", section, reason.message());
                                 std::process::exit(2);
